@@ -18,9 +18,12 @@ package dotenv
 
 import (
 	"bytes"
+	"errors"
 	"fmt"
+	"io/fs"
 	"os"
 	"path/filepath"
+	"syscall"
 )
 
 func GetEnvFromFile(currentEnv map[string]string, filenames []string) (map[string]string, error) {
@@ -34,7 +37,7 @@ func GetEnvFromFile(currentEnv map[string]string, filenames []string) (map[strin
 		dotEnvFile = abs
 
 		s, err := os.Stat(dotEnvFile)
-		if os.IsNotExist(err) {
+		if errors.Is(err, fs.ErrNotExist) || errors.Is(err, syscall.ENOTDIR) {
 			return envMap, fmt.Errorf("Couldn't find env file: %s", dotEnvFile)
 		}
 		if err != nil {
